@@ -47,7 +47,12 @@ def configs(tier):
     rw["_changed_after_design"] = {"section": "geometric_constraints", "values": {"min_height": 50.0, "max_height": 100.0}, "design_found_first": True}
     rp = cfg(loads=big, design={"continue_if_design_unmet": True})
     rp["_changed_after_design"] = {"section": "design", "values": {"continue_if_design_unmet": False}, "design_found_first": True}
-    cs += [rw, rp]
+    # the horizon given as a float (the schema's type is "number"): a whole number of months, and one that is not
+    fm = cfg(months=12, loads={"kind": "balanced", "scale": 20000.0, "seed": 3})
+    fm["simulation"]["num_months"] = 12.0
+    fh = cfg(months=12, loads={"kind": "balanced", "scale": 20000.0, "seed": 3})
+    fh["simulation"]["num_months"] = 18.5
+    cs += [rw, rp, fm, fh]
     # RowWise borehole-removal path: the sparsest field suffices, smaller sub-fields may or may not
     cs += [rowwise_small_cfg(sc) for sc in ([9000.0, 14000.0, 22000.0] if tier == "quick" else [6000.0, 9000.0, 12000.0, 14000.0, 18000.0, 22000.0, 26000.0, 30000.0])]
     if tier != "quick":
